@@ -43,6 +43,8 @@ fn prefix_sets() -> Vec<(&'static str, Vec<(u32, u32, u32, u32)>)> {
         ("ps3", vec![(0, 0, 1, 2)]),
         ("ps4", vec![(2, 0, 1, 3)]),
         ("ps5", vec![(1, 1, 1, 1), (2, 2, 2, 3), (3, 7, 3, 3)]),
+        ("ps6", vec![(0, 0, 0, 0), (1, 1, 2, 3)]),
+        ("ps7", vec![(0, 0, 3, 3), (2, 1, 2, 2)]),
     ]
 }
 
@@ -171,7 +173,8 @@ fn main() {
     let inp = std::io::BufReader::new(std::fs::File::open(&args[1]).expect("open input"));
     let mut out = BufWriter::new(std::fs::File::create(&args[2]).expect("create output"));
     std::panic::set_hook(Box::new(|_| {}));
-    let embs = [Emb { v6: false, off: 21 }, Emb { v6: false, off: 8 }, Emb { v6: true, off: 61 }];
+    // offset 0: the model's whole-space entries are the default routes 0.0.0.0/0 and ::/0
+    let embs = [Emb { v6: false, off: 21 }, Emb { v6: false, off: 8 }, Emb { v6: true, off: 61 }, Emb { v6: false, off: 0 }, Emb { v6: true, off: 0 }];
     let source = Arc::new(table::Source::new(
         IpAddr::V4(Ipv4Addr::new(10, 0, 0, 1)),
         IpAddr::V4(Ipv4Addr::new(10, 0, 0, 254)),
